@@ -180,7 +180,112 @@ def c20(report, env):
     bounded(report, 'C20.falsy-callable', '8 subscription shapes with a callable object that is falsy (an empty list subclass): off(name, it) removes exactly its listeners', cases, fails, kind='table')
 
 
-TABLES = {'C04': [c04], 'C06': [c06], 'C08': [c08], 'C11': [c11], 'C12': [c12], 'C15': [c15, c15_sweep], 'C16': [c16], 'C18': [c18], 'C20': [c20]}
+def c17(report, env):
+    # each function is a function of its arguments: the same arguments handed to ANOTHER function just before (or the same function
+    # earlier) change nothing.  FACT / FACTDOUBLE against exact references in both orders; every other one-argument name of the
+    # property in two evaluation orders on one parser, outcome per formula compared.
+    from pyvc import e2e
+    fails, cases = [], 0
+
+    def dfact(n):
+        r = 1
+        while n > 1:
+            r *= n
+            n -= 2
+        return r
+    for order in (('FACT', 'FACTDOUBLE'), ('FACTDOUBLE', 'FACT')):
+        p = e2e.new_parser()
+        for n in list(range(0, 26)) + [30, 50, 100, 170]:
+            for fn in order + order:
+                f = '%s(%d)' % (fn, n)
+                r = p.parse(f)
+                cases += 1
+                want = math.factorial(n) if fn == 'FACT' else dfact(n)
+                if r != {'result': want, 'error': None} and len(fails) < 5:
+                    fails.append({'formula': f, 'detail': 'after %s of the same argument: expected %r, got %r' % (order[0], want, r)})
+    names = ['INT', 'EVEN', 'ODD', 'SIGN', 'FACT', 'FACTDOUBLE', 'ABS', 'ROUND', 'ROUNDUP', 'ROUNDDOWN', 'DEC2HEX', 'DEC2BIN', 'DEC2OCT', 'ROMAN', 'SQRT', 'EXP']
+    args = ['0', '1', '2', '3', '5', '6', '7', '10', '12', '2.5', '-3', '-2.5', '255']
+    forms = ['%s(%s)' % (n, a) if n not in ('ROUND', 'ROUNDUP', 'ROUNDDOWN') else '%s(%s,0)' % (n, a) for a in args for n in names]
+    p1, p2 = e2e.new_parser(), e2e.new_parser()
+    o1 = {f: p1.parse(f) for f in forms}
+    o2 = {f: p2.parse(f) for f in reversed(forms)}
+    for f in forms:
+        cases += 1
+        if repr(o1[f]) != repr(o2[f]) and len(fails) < 5:
+            fails.append({'formula': f, 'detail': 'the outcome depends on what was evaluated before: %r when functions are called in one order, %r in the reverse order' % (o1[f], o2[f])})
+    bounded(report, 'C17.same-argument-other-function', 'FACT / FACTDOUBLE of 0..25, 30, 50, 100, 170 in both call orders against exact references; 16 one-argument functions x 13 arguments in two evaluation orders', cases, fails)
+
+
+# ---- known findings decided by a concrete formula (KNOWN-FINDING while they still fail; an ordinary violation if not listed) -------------
+def k14(report, env):
+    import datetime
+    from pyvc import e2e
+    from props.common import known_e2e
+    p = e2e.new_parser()
+    r = p.parse('DAYS(DATE(1900,1,2),DATE(1900,1,1))')
+    r2 = p.parse('DAYS(DATE(1900,3,1),DATE(1900,2,28))')
+    known_e2e(report, 'C14-days-across-early-1900', not (r.get('result') == 1 and r2.get('result') == 1), 'DAYS(DATE(1900,1,2),DATE(1900,1,1))',
+              'DAYS across 1 January or 28 February / 1 March 1900 counts a day too many: %r, %r' % (r, r2))
+    # inside January-February 1900 (both ends after 1 January, before 1 March) the calendar difference holds; so do DATEDIF d
+    fails, cases = [], 0
+    d0 = datetime.date(1900, 1, 2)
+    days = [d0 + datetime.timedelta(days=i) for i in range(0, 58, 3)] + [datetime.date(1900, 2, 28)]
+    for a in days:
+        for b in days:
+            if a > b:
+                continue
+            cases += 1
+            f = 'DAYS(DATE(%d,%d,%d),DATE(%d,%d,%d))' % (b.year, b.month, b.day, a.year, a.month, a.day)
+            r = p.parse(f)
+            if not (r['error'] is None and r['result'] == (b - a).days) and len(fails) < 5:
+                fails.append({'formula': f, 'detail': 'expected %d, got %r' % ((b - a).days, r)})
+            f = 'DATEDIF(DATE(%d,%d,%d),DATE(%d,%d,%d),"d")' % (a.year, a.month, a.day, b.year, b.month, b.day)
+            r = p.parse(f)
+            cases += 1
+            if not (r['error'] is None and r['result'] == (b - a).days) and len(fails) < 5:
+                fails.append({'formula': f, 'detail': 'expected %d, got %r' % ((b - a).days, r)})
+    bounded(report, 'C14.early-1900-inside', 'DAYS and DATEDIF d for every pair of 21 days between 2 January and 28 February 1900 (outside the known finding\'s region)', cases, fails)
+
+
+def k11(report, env):
+    from pyvc import e2e
+    from props.common import known_e2e
+    r = e2e.new_parser().parse('SUMIFS({1,2;3,4},{1,2;3,4},">1")')
+    known_e2e(report, 'C11-criteria-functions-on-2d-ranges', r != {'result': 9, 'error': None}, 'SUMIFS({1,2;3,4},{1,2;3,4},">1")',
+              'SUMIFS over a two-dimensional range: expected 9, got %r' % (r,))
+
+
+def k05(report, env):
+    from pyvc import e2e
+    from props.common import known_e2e
+    got = []
+    p = e2e.new_parser()
+    p.set_function('F', lambda *a: got.append(a) or 0)
+    r = p.parse('F(1,2;3,4)')
+    bad = r['error'] is None and got != [(1, 2, 3, 4)]
+    known_e2e(report, 'C05-mixed-separators-in-a-call', bad, 'F(1,2;3,4)', 'a call with mixed separators is accepted but passes %r, not one argument per slot' % (got,))
+
+
+def k09(report, env):
+    from pyvc import e2e
+    from props.common import known_e2e
+    p = e2e.new_parser()
+    p.set_variable('a', 5)
+    r = p.parse('a.b')
+    known_e2e(report, 'C09-dotted-names', r != {'result': None, 'error': '#NAME?'} and r['error'] is None, 'a.b', 'with only a set, a.b evaluates to %r instead of #NAME?' % (r,))
+
+
+def k15(report, env):
+    from pyvc import e2e
+    from props.common import known_e2e
+    p = e2e.new_parser()
+    once = p.parse('PROPER("a\u0130b")')
+    p.set_variable('t', once['result'])
+    twice = p.parse('PROPER(t)')
+    known_e2e(report, 'C15-proper-dotted-capital-i', once['result'] != twice['result'], 'PROPER(PROPER("a\u0130b"))', 'PROPER is not idempotent: %r then %r' % (once, twice))
+
+
+TABLES = {'C04': [c04], 'C05': [k05], 'C06': [c06], 'C08': [c08], 'C09': [k09], 'C11': [c11, k11], 'C12': [c12], 'C14': [k14], 'C15': [c15, c15_sweep, k15], 'C16': [c16], 'C17': [c17], 'C18': [c18], 'C20': [c20]}
 
 
 def run(report, env):
